@@ -23,7 +23,7 @@ int64_t prng_range(struct prng *, int64_t lo, int64_t hi);	/* inclusive */
 /* ---------- plans ---------- */
 #define TOK_MAXV 8
 struct tok { int n; int64_t v[TOK_MAXV]; };
-#define PL_MAXARGS 12
+#define PL_MAXARGS 16
 struct pline {
 	char kind[8];		/* "knob", "step", "al", "fault", "data" */
 	char name[28];
